@@ -371,15 +371,18 @@ func c11Start(idx, nchan int) (*lcH, bool) {
 
 // c11Feed hands one block of nsamp samples per channel to the source and waits until the loop processed it.
 func (h *lcH) c11Feed(nchan, frame, dropped int) bool {
+	if h.ds.GetState() != dastard.Active {
+		return false
+	}
 	base := lcCount(dastard.VerifTrace(0), "loop.processed")
 	data := make([][]dastard.RawType, nchan)
 	for i := range data {
 		data[i] = make([]dastard.RawType, 64)
 	}
-	if !h.loop.VerifFeed(int64(frame), data, dropped, nil, 0, 500*time.Millisecond) {
+	if !h.loop.VerifFeed(int64(frame), data, dropped, nil, 0, 3*time.Second) {
 		return false
 	}
-	return lcWaitTrace(time.Second, func(tr []dastard.VerifEvent) bool { return lcCount(tr, "loop.processed") > base })
+	return lcWaitTrace(3*time.Second, func(tr []dastard.VerifEvent) bool { return lcCount(tr, "loop.processed") > base })
 }
 
 // timed runs f as a registered request caller with a watchdog: 0 ok, 1 error, 2 no reply.
@@ -462,9 +465,9 @@ func c11Hist(idx int, r *Rng) (string, func() string) {
 				h.sc.VerifRefresh()
 				dastard.VerifNote("flag.refresh")
 			case "selfend":
-				ok := h.loop.VerifFeed(0, nil, 0, nil, 1, 300*time.Millisecond)
+				ok := h.ds.GetState() == dastard.Active && h.loop.VerifFeed(0, nil, 0, nil, 1, 3*time.Second)
 				if ok {
-					lcWaitTrace(time.Second, func([]dastard.VerifEvent) bool { return h.ds.GetState() == dastard.Inactive })
+					lcWaitTrace(3*time.Second, func([]dastard.VerifEvent) bool { return h.ds.GetState() == dastard.Inactive })
 				}
 				rets[i] = 1 - b2i(ok)
 			case "refresh":
